@@ -36,7 +36,7 @@ func zzAcmeIngress(name string, created int64, prefix string) *networking.Ingres
 	}
 	ing.Spec.TLS = []networking.IngressTLS{{
 		Hosts:      []string{zzHosts[nd.Choice(prefix+".tlshost", len(zzHosts))]},
-		SecretName: zzSecrets[nd.Choice(prefix+".secret", 2)],
+		SecretName: []string{"t1", "t2"}[nd.Choice(prefix+".secret", 2)],
 	}}
 	return ing
 }
